@@ -454,6 +454,130 @@ def _cmp_parts(e):
     return None
 
 
+def _edge_values(e, depth=0):
+    """(value at position 0, value at position -1) of the last axis of an expanded tensor expression,
+    as expressions, or "?" where the expression does not say: F.pad(x, (1, 1), value=v), stores at
+    (..., 0) / (..., -1) / (..., [0, -1]), torch.cat([c, x, c], -1); a gather on the leading axes and
+    element-wise wrappers keep the edges."""
+    if depth > 40:
+        return "?", "?"
+    if isinstance(e, ast.Subscript):
+        idx = e.slice.elts if isinstance(e.slice, ast.Tuple) else [e.slice]
+        lastpos = idx[-1] if len(idx) > 1 else None
+        # x[mask, :] / x[mask] / x[mask, ...]: the last axis is untouched
+        if lastpos is None or (isinstance(lastpos, ast.Slice) and lastpos.lower is None and lastpos.upper is None and lastpos.step is None) or (isinstance(lastpos, ast.Constant) and lastpos.value is Ellipsis):
+            return _edge_values(e.value, depth + 1)
+        return "?", "?"
+    if isinstance(e, ast.Call):
+        f = e.func
+        last = f.attr if isinstance(f, ast.Attribute) else (f.id if isinstance(f, ast.Name) else "")
+        if last == "__store__" and len(e.args) == 3:
+            first, lst = _edge_values(e.args[0], depth + 1)
+            idx, val = e.args[1], e.args[2]
+            elts = idx.elts if isinstance(idx, ast.Tuple) else [idx]
+            pos = elts[-1]
+            lead_ok = all((isinstance(x, ast.Constant) and x.value is Ellipsis) or (isinstance(x, ast.Slice) and x.lower is None and x.upper is None and x.step is None) for x in elts[:-1]) and len(elts) > 1
+            if lead_ok:
+                k = const_number(pos)
+                if k is not None:
+                    if k == 0:
+                        first = val
+                    elif k == -1:
+                        lst = val
+                    return first, lst
+                if isinstance(pos, (ast.List, ast.Tuple)) and all(const_number(x) is not None for x in pos.elts):
+                    ks = [const_number(x) for x in pos.elts]
+                    if 0 in ks:
+                        first = val
+                    if -1 in ks:
+                        lst = val
+                    return first, lst
+                return "?", "?"
+            # a store through a row mask / a whole-tensor store: not about the last axis' edges
+            if elts and not isinstance(pos, (ast.Constant, ast.List, ast.Tuple)):
+                return first, lst
+            return "?", "?"
+        if last == "pad" and e.args:
+            padv = next((k.value for k in e.keywords if k.arg == "pad"), e.args[1] if len(e.args) > 1 else None)
+            val = next((k.value for k in e.keywords if k.arg == "value"), e.args[3] if len(e.args) > 3 else ast.Constant(value=0))
+            mode = next((k.value for k in e.keywords if k.arg == "mode"), None)
+            if mode is not None and not (isinstance(mode, ast.Constant) and mode.value == "constant"):
+                return "?", "?"
+            if isinstance(padv, (ast.Tuple, ast.List)) and len(padv.elts) >= 2 and all(const_number(x) is not None for x in padv.elts[:2]):
+                l, r = int(const_number(padv.elts[0])), int(const_number(padv.elts[1]))
+                first, lst = _edge_values(e.args[0], depth + 1)
+                return (val if l >= 1 else first), (val if r >= 1 else lst)
+            return "?", "?"
+        if last in ("cat", "concat") and e.args and isinstance(e.args[0], (ast.List, ast.Tuple)) and e.args[0].elts:
+            dim = next((k.value for k in e.keywords if k.arg in ("dim", "axis")), e.args[1] if len(e.args) > 1 else None)
+            if dim is not None and const_number(dim) == -1:
+                a, b = e.args[0].elts[0], e.args[0].elts[-1]
+                return _edge_values(a, depth + 1)[0], _edge_values(b, depth + 1)[1]
+            return "?", "?"
+        if last in ("clone", "contiguous", "float", "double", "to", "detach") and isinstance(f, ast.Attribute) and not e.args:
+            return _edge_values(f.value, depth + 1)
+        if last in ("expand", "expand_as", "repeat", "new_full", "full", "full_like") :
+            # a column of one value
+            if last in ("new_full", "full", "full_like") and len(e.args) >= 2:
+                return e.args[-1], e.args[-1]
+            if isinstance(f, ast.Attribute):
+                return _edge_values(f.value, depth + 1)
+    return "?", "?"
+
+
+def _boundary_const_ok(e):
+    """is the expression the constant c with min_derivative + softplus(c) = 1, i.e. log(exp(1 - m) - 1)?
+    Decided numerically (the checker's own float evaluator) at several values of min_derivative."""
+    import math
+
+    if not isinstance(e, ast.AST):
+        return False
+
+    def ev(n, m):
+        v = const_number(n)
+        if v is not None:
+            return float(v)
+        if isinstance(n, ast.Name):
+            if n.id == "min_derivative":
+                return m
+            raise ValueError(n.id)
+        if isinstance(n, ast.UnaryOp) and isinstance(n.op, ast.USub):
+            return -ev(n.operand, m)
+        if isinstance(n, ast.BinOp):
+            a, b = ev(n.left, m), ev(n.right, m)
+            if isinstance(n.op, ast.Add):
+                return a + b
+            if isinstance(n.op, ast.Sub):
+                return a - b
+            if isinstance(n.op, ast.Mult):
+                return a * b
+            if isinstance(n.op, ast.Div):
+                return a / b
+            if isinstance(n.op, ast.Pow):
+                return a ** b
+            raise ValueError("op")
+        if isinstance(n, ast.Call):
+            f = n.func
+            name = f.attr if isinstance(f, ast.Attribute) else (f.id if isinstance(f, ast.Name) else "")
+            table = {"log": math.log, "exp": math.exp, "expm1": math.expm1, "log1p": math.log1p, "float": float, "sqrt": math.sqrt}
+            if name in table and len(n.args) == 1 and (not isinstance(f, ast.Attribute) or (isinstance(f.value, ast.Name) and f.value.id in ("np", "math", "numpy", "torch"))):
+                return table[name](ev(n.args[0], m))
+            if name in ("tensor", "as_tensor", "full", "new_full", "new_tensor") and n.args:
+                return ev(n.args[-1] if name in ("full", "new_full") else n.args[0], m)
+            raise ValueError(name)
+        raise ValueError(type(n).__name__)
+
+    try:
+        for m in (1e-3, 0.02, 0.3, 0.9):
+            got = ev(e, m)
+            want = math.log(math.exp(1 - m) - 1)
+            if abs(got - want) > 1e-9 * max(1.0, abs(want)):
+                return False
+        return True
+    except (ValueError, ZeroDivisionError, OverflowError):
+        return None
+
+
 def tail_rule(ctx):
     p = ctx.p
     res = RuleResult("SPL-TAIL", "unconstrained wrappers: closed inside mask on one bound, complementary outside mask, identity with zero log-det outside, square box in the same bound, constant boundary derivative from the forwarded min_derivative")
@@ -532,16 +656,37 @@ def tail_rule(ctx):
             res.ok("%s: outside the bound outputs = inputs and logabsdet = 0" % outer.name)
         else:
             res.fail(Finding("SPL-TAIL", outer.module, outer.qualname, fn, "outside the tail bound the transform must be the identity with zero log-abs-det (identity %s, zero log-det %s)" % (id_ok, ld_ok), construct="identity tails of " + outer.name))
-        # rq: boundary derivative constant from the same min_derivative
+        # rq: boundary derivative constant from the same min_derivative -- read off the expanded argument
+        # that reaches the inner spline: the value stored at the first and the last position of the last
+        # axis (through F.pad / stores / cat), compared numerically as a closed formula of min_derivative
         if "min_derivative" in params:
-            consts = [n for n in ast.walk(fn) if isinstance(n, ast.Assign) and "np.exp(1 - " in norm_text(n.value)]
-            okc = any(norm_text(n.value).replace(" ", "") == "np.log(np.exp(1-min_derivative)-1)" for n in consts)
-            stores = [n for n in ast.walk(fn) if isinstance(n, ast.Assign) and isinstance(n.targets[0], ast.Subscript) and norm_text(n.targets[0].value) == "unnormalized_derivatives"]
-            idxs = {norm_text(n.targets[0].slice).replace(" ", "") for n in stores}
-            if okc and {"(...,0)", "(...,-1)"} <= idxs:
+            okc = False
+            why = "the inner spline call with its unnormalized_derivatives argument was not found"
+            for pp in paths_of(fn):
+                if pp.kind != "return":
+                    continue
+                roots = [pp.ret] + [x_ for eff in pp.effects for x_ in eff[2:] if isinstance(x_, ast.AST)]
+                for root in roots:
+                    for c in uwalk(root):
+                        if isinstance(c, ast.Call) and norm_text(c.func).split(".")[-1] == inner.name:
+                            arg = next((k.value for k in c.keywords if k.arg == "unnormalized_derivatives"), None)
+                            if arg is None:
+                                names = [a for a, _ in inner.params()]
+                                if "unnormalized_derivatives" in names and names.index("unnormalized_derivatives") < len(c.args):
+                                    arg = c.args[names.index("unnormalized_derivatives")]
+                            if arg is None:
+                                continue
+                            first, last = _edge_values(arg)
+                            v1, v2 = _boundary_const_ok(first), _boundary_const_ok(last)
+                            if v1 is True and v2 is True:
+                                okc = True
+                            else:
+                                okc = False
+                                why = "first entry `%s`, last entry `%s`" % (norm_text(first)[:50] if isinstance(first, ast.AST) else first, norm_text(last)[:50] if isinstance(last, ast.AST) else last)
+            if okc:
                 res.ok("%s: boundary derivatives set so that min_derivative + softplus(c) = 1 at both ends" % outer.name)
             else:
-                res.fail(Finding("SPL-TAIL", outer.module, outer.qualname, fn, "the boundary derivatives must be pinned at both ends with c = log(exp(1 - min_derivative) - 1), built from the same min_derivative that is forwarded", construct="boundary derivatives of " + outer.name))
+                res.fail(Finding("SPL-TAIL", outer.module, outer.qualname, fn, "the boundary derivatives must be pinned at both ends with c = log(exp(1 - min_derivative) - 1), built from the same min_derivative that is forwarded (%s)" % why, construct="boundary derivatives of " + outer.name))
         # inner call: square box in B
         calls = [c for c in ast.walk(fn) if isinstance(c, ast.Call) and isinstance(c.func, ast.Name) and c.func.id == inner.name]
         if not calls:
@@ -667,7 +812,53 @@ def _canon_minmax(test):
     """Set of canonical atoms of a domain test: 'MIN(x) < b' / 'MAX(x) > b'."""
     out = set()
     parts = test.values if isinstance(test, ast.BoolOp) and isinstance(test.op, ast.Or) else [test]
+
+    def as_extreme_tests(t):
+        """any(x <= c) is min(x) <= c, any(x >= c) is max(x) >= c, not all(x > c) is min(x) <= c, and
+        any(A | B) is any(A) or any(B): the element-wise spellings of a test on the extremes"""
+        neg = False
+        while isinstance(t, ast.UnaryOp) and isinstance(t.op, ast.Not):
+            neg = not neg
+            t = t.operand
+        if isinstance(t, ast.Call):
+            f = t.func
+            name = f.attr if isinstance(f, ast.Attribute) else (f.id if isinstance(f, ast.Name) else "")
+            is_mod = isinstance(f, ast.Attribute) and isinstance(f.value, ast.Name) and f.value.id == "torch"
+            inner = (t.args[0] if t.args else None) if (is_mod or isinstance(f, ast.Name)) else (f.value if isinstance(f, ast.Attribute) and not t.args else None)
+            if name in ("any", "all") and inner is not None and (name == "all") == neg:
+                # any(C)  or  not all(C) = any(not C)
+                flip = {ast.Lt: ast.GtE, ast.LtE: ast.Gt, ast.Gt: ast.LtE, ast.GtE: ast.Lt}
+                comps = inner.values if False else None
+                stack, leaves = [inner], []
+                while stack:
+                    q = stack.pop()
+                    if isinstance(q, ast.BinOp) and isinstance(q.op, ast.BitOr if name == "any" else ast.BitAnd):
+                        stack.extend([q.right, q.left])
+                    else:
+                        leaves.append(q)
+                outs = []
+                for q in leaves:
+                    if not (isinstance(q, ast.Compare) and len(q.ops) == 1 and type(q.ops[0]) in flip):
+                        return None
+                    op = type(q.ops[0])
+                    if name == "all":
+                        op = flip[op]
+                    l, r = q.left, q.comparators[0]
+                    # which side is the tensor? the one that is not a number / plain bound
+                    tens, bound, opx = (l, r, op) if const_number(l) is None and not isinstance(l, ast.UnaryOp) else (r, l, {ast.Lt: ast.Gt, ast.LtE: ast.GtE, ast.Gt: ast.Lt, ast.GtE: ast.LtE}[op])
+                    ext = "min" if opx in (ast.Lt, ast.LtE) else "max"
+                    call = ast.Call(func=ast.Attribute(value=ast.Name(id="torch", ctx=ast.Load()), attr=ext, ctx=ast.Load()), args=[tens], keywords=[])
+                    outs.append(ast.Compare(left=call, ops=[opx()], comparators=[bound]))
+                return outs
+        return None if neg else [t]
+
+    flat = []
     for t in parts:
+        r_ = as_extreme_tests(t)
+        if r_ is None:
+            return None
+        flat.extend(r_)
+    for t in flat:
         if not (isinstance(t, ast.Compare) and len(t.ops) == 1):
             return None
         l, r = t.left, t.comparators[0]
@@ -733,6 +924,23 @@ def dom_guard_rule(ctx):
         targets.append((fi, lo, lo_open, hi, hi_open, "%s.%s" % (cname, meth)))
     for inner, outer in spline_funcs(p):
         targets.append((inner, "left", False, "right", False, inner.name))
+    # overrides: a subclass that redefines a guarded method, and an InverseTransform wrapper of a guarded
+    # class (Logit = InverseTransform(Sigmoid)) that defines the opposite direction itself instead of
+    # inheriting the delegation, owe the same guard
+    inv_base = p.find_class("InverseTransform", "nflows.transforms.base")
+    for modname, cname, meth, lo, lo_open, hi, hi_open in DOMAINS:
+        cls = p.find_class(cname, modname)
+        for sub in cls.all_subclasses():
+            if sub is not cls and meth in sub.methods:
+                targets.append((sub.methods[meth], lo, lo_open, hi, hi_open, "%s.%s (overrides %s.%s)" % (sub.name, meth, cname, meth)))
+        opposite = "forward" if meth == "inverse" else "inverse"
+        for w in (inv_base.all_subclasses() if inv_base is not None else []):
+            init = w.methods.get("__init__")
+            if init is None or w is inv_base:
+                continue
+            wraps = any(isinstance(n, ast.Call) and isinstance(n.func, ast.Attribute) and n.func.attr == "__init__" and n.args and isinstance(n.args[0], ast.Call) and norm_text(n.args[0].func).split(".")[-1] == cname for n in ast.walk(init.node))
+            if wraps and opposite in w.methods:
+                targets.append((w.methods[opposite], lo, lo_open, hi, hi_open, "%s.%s (its own %s of the wrapped %s)" % (w.name, opposite, opposite, cname)))
     for fi, lo, lo_open, hi, hi_open, label in targets:
         x = fi.params()[0][0]
         want = set()
